@@ -278,15 +278,16 @@ class PointTier(textgrid_tier.TextgridTier):
                 newTier.deleteEntry(point)
 
         if doShrink is True:
+            # See IntervalTier.eraseRegion for why times are shifted
+            # as 'start + (time - end)'
             newEntries = []
-            diff = end - start
             for point in newTier.entries:
                 if point.time < start:
                     newEntries.append(point)
                 elif point.time > end:
-                    newEntries.append(Point(point.time - diff, point.label))
+                    newEntries.append(Point(start + (point.time - end), point.label))
 
-            newMax = newTier.maxTimestamp - diff
+            newMax = start + (newTier.maxTimestamp - end)
             newTier = newTier.new(entries=newEntries, maxTimestamp=newMax)
 
         return newTier
